@@ -356,7 +356,29 @@ fn outcome_event(i: usize, o: TimerOutcome) -> TEvent {
     }
 }
 
-pub static ALL_IDS: Mutex<BTreeSet<usize>> = Mutex::new(BTreeSet::new());
+/// Every timer id seen in this process: a growable bit set (ids come from a counter, so they are
+/// dense; hundreds of millions of them fit in a few MB).
+pub struct IdSet(Vec<u64>);
+
+impl IdSet {
+    /// true if `id` was not present before
+    pub fn insert(&mut self, id: usize) -> bool {
+        let (w, b) = (id / 64, id % 64);
+        if w >= self.0.len() {
+            if w > (1 << 28) {
+                // an id far outside anything a counter could have produced: keep it exact elsewhere
+                return SPARSE_IDS.lock().unwrap().insert(id);
+            }
+            self.0.resize(w + 1 + w / 2, 0);
+        }
+        let fresh = self.0[w] & (1 << b) == 0;
+        self.0[w] |= 1 << b;
+        fresh
+    }
+}
+
+static SPARSE_IDS: Mutex<BTreeSet<usize>> = Mutex::new(BTreeSet::new());
+pub static ALL_IDS: Mutex<IdSet> = Mutex::new(IdSet(Vec::new()));
 
 #[derive(Debug)]
 pub struct TFail {
